@@ -325,7 +325,7 @@ fn main() {
         let mut def = CheckDef::new(
             "C14",
             "exploration",
-            "bounded-exhaustive differential check: every dump of three product spaces is generated with minidump-synth, processed through the public end-to-end path and compared field by field with an index model computed from the generator parameters. index = thread-id pattern (7, incl. duplicates/gaps/empty) x exception thread id (6, incl. absent/missing/dump-writer) x Breakpad info (6) x exception context {absent, readable, garbage} x thread context readability (3) x 12 CPU kinds x 12 OS ids (quick: one record of the OS's menu per case, rotating; thorough: 16); reason = 12 OS ids x 12 CPUs x the whole per-OS exception-record menu x 2 addresses; proc = misc-info flags (5) x Linux status (4) x unloaded-module layouts (4) x module lists (3) x 3 CPUs x thread lists of 1/4/32; unloaded-overlap = every ordered list of 3 unloaded modules with (base, size) on the grid {0,0x1000,0x2000} x {0x800,0x1000,0x4000} (thorough: 4 bases x 4 sizes) x 3 name patterns (all different, first = last, all equal) x {no, one} loaded module inside the window, and every ordered list of 4 unloaded modules on the grid {0,0x1000,0x2000} x {0x800,0x4000} (thorough: 3 x 3) x 3 name patterns (one name at two and at three ranges); ranges nest, overlap, coincide, touch and lie apart in every stream order, and each dump has one thread (frame 0) at every range's base-1, base, middle, last byte and end, whose per-frame unloaded-module offsets must equal the brute-force filter over the stream; stack-regions = two threads, each with its own stack region and an extra region of the memory list that no stack descriptor names and a region that begins exactly where its own region ends (sp = one past the end of the stack descriptor) (0x400 bytes each, every region encoding a different number 1..3 of callers with its own return addresses inside the loaded module) x exception {absent, names thread 0 / thread 1 with the sp of its context in the thread's own stack / the extra region / the other thread's stack} (7) x sp of thread 0's own context in {own, extra, other thread's} (3) x the same for thread 1 (3) x depth rotation (3) x memory-list order {stacks first, extras first} (2) x {frame-pointer chain on amd64, x86, arm64; return addresses between zero words, no frame pointer, on amd64, x86} (5) x OS {Windows, Linux, Mac} (3): besides the index oracle, every call stack must have exactly the frames that the region its starting context (the exception's for the requesting thread, else the thread's) points into encodes - frame count, and (return address, stack pointer) of every caller frame. distinct_nontrivial = distinct observed (thread shape, requesting thread, reason, address, pid, cpu, os) tuples.",
+            "bounded-exhaustive differential check: every dump of three product spaces is generated with minidump-synth, processed through the public end-to-end path and compared field by field with an index model computed from the generator parameters. index = thread-id pattern (7, incl. duplicates/gaps/empty) x exception thread id (6, incl. absent/missing/dump-writer) x Breakpad info (6) x exception context {absent, readable, garbage} x thread context readability (3) x 12 CPU kinds x 12 OS ids (quick: one record of the OS's menu per case, rotating; thorough: 16); reason = 12 OS ids x 12 CPUs x the whole per-OS exception-record menu x 2 addresses; proc = misc-info flags (5) x Linux status (4) x unloaded-module layouts (4) x module lists (3) x 3 CPUs x thread lists of 1/4/32; unloaded-overlap = every ordered list of 3 unloaded modules with (base, size) on the grid {0,0x1000,0x2000} x {0x800,0x1000,0x4000} (thorough: 4 bases x 4 sizes) x 3 name patterns (all different, first = last, all equal) x {no, one} loaded module inside the window, and every ordered list of 4 unloaded modules on the grid {0,0x1000,0x2000} x {0x800,0x4000} (thorough: 3 x 3) x 3 name patterns (one name at two and at three ranges); ranges nest, overlap, coincide, touch and lie apart in every stream order, and each dump has one thread (frame 0) at every range's base-1, base, middle, last byte and end, whose per-frame unloaded-module offsets must equal the brute-force filter over the stream; unloaded-frames = one thread whose frame-pointer chain of 5 records returns through addresses in no loaded module but in several overlapping unloaded ones (3 CPUs x 3 OS x 4 strides): every frame has its own set; stack-regions = two threads, each with its own stack region and an extra region of the memory list that no stack descriptor names and a region that begins exactly where its own region ends (sp = one past the end of the stack descriptor) (0x400 bytes each, every region encoding a different number 1..3 of callers with its own return addresses inside the loaded module) x exception {absent, names thread 0 / thread 1 with the sp of its context in the thread's own stack / the extra region / the other thread's stack} (7) x sp of thread 0's own context in {own, extra, other thread's} (3) x the same for thread 1 (3) x depth rotation (3) x memory-list order {stacks first, extras first} (2) x {frame-pointer chain on amd64, x86, arm64; return addresses between zero words, no frame pointer, on amd64, x86} (5) x OS {Windows, Linux, Mac} (3): besides the index oracle, every call stack must have exactly the frames that the region its starting context (the exception's for the requesting thread, else the thread's) points into encodes - frame count, and (return address, stack pointer) of every caller frame. distinct_nontrivial = distinct observed (thread shape, requesting thread, reason, address, pid, cpu, os) tuples.",
         );
         def.assumptions = vec![
             "duplicate thread ids: the requesting thread may be any non-dump-writer thread carrying the named id; further threads with that id may start from either context; names are given once per distinct id".into(),
@@ -338,7 +338,7 @@ fn main() {
             "kept out of the alphabet (they belong to C03): /proc limits streams, memory regions ending at 2^64-1, rsp < 8".into(),
         ];
         def.extra.insert("bounds".into(), json!({"threads": "0..4 and 32", "cpus": 12, "os_ids": 12, "tier": ctx.tier.name()}));
-        def.spaces = vec![space(gen_reason(ctx.tier)), space(gen_proc(ctx.tier)), space(gen_index(ctx.tier)), space(gen_unloaded_overlap(ctx.tier)), stack_space(gen_stack_regions(ctx.tier))];
+        def.spaces = vec![space(gen_reason(ctx.tier)), space(gen_proc(ctx.tier)), space(gen_index(ctx.tier)), space(gen_unloaded_overlap(ctx.tier)), space(gen_unloaded_frames(ctx.tier)), stack_space(gen_stack_regions(ctx.tier))];
         def
     })
 }
